@@ -868,6 +868,36 @@ fn run(out: &mut dyn Write) {
             Err(_) => writeln!(out, "CPANIC sig {i} {}", hx(&msg)).unwrap(),
         }
     }
+    // directed: signatures whose LAST BYTE is zero (about one in 256: the text ends in 'y' after one of y/e/o/a) - a decoder that
+    // pads a short text with zeros instead of demanding 65 bytes accepts these with their last character cut off
+    let mut found = 0;
+    for j in 0..6000u64 {
+        if found >= 2 {
+            break;
+        }
+        let s = &signers[(j % signers.len() as u64) as usize];
+        let msg = format!("zero tail {j}").into_bytes();
+        let r = catch_unwind(AssertUnwindSafe(|| {
+            let sig = sign(&msg, &s.sk);
+            let b = sig.as_bytes();
+            if b.len() < 2 || b[b.len() - 1] != b'y' || !matches!(b[b.len() - 2], b'y' | b'e' | b'o' | b'a') {
+                return None;
+            }
+            let mut ls = vec![];
+            let (line, sig) = csig_line(&msg, s);
+            ls.push(line);
+            if let Some(sig) = sig {
+                sig_mutations(&msg, s, &sig, &mut rng, true, &mut ls);
+            }
+            Some(ls)
+        }));
+        if let Ok(Some(ls)) = r {
+            found += 1;
+            for l in ls {
+                writeln!(out, "{l}").unwrap();
+            }
+        }
+    }
 }
 
 /// re-run the cases of a file (the part of each line before OBS) on the real code
